@@ -8,7 +8,7 @@
    The line/last-line bookkeeping of JustifyOpts is decided by check_C12 on the model. *)
 From Coq Require Import List Bool ZArith Lia.
 Import ListNotations.
-From Rosed Require Import Base.Res Base.ListX Base.Str Gem.Segment Gem.GString Model.Manip Model.Table Proofs.SeamP Proofs.C12P Proofs.C12Q Proofs.C12R Base.Utf8 Model.Options Model.Editor Model.Ops Proofs.OpsMapP.
+From Rosed Require Import Base.Res Base.ListX Base.Str Gem.Segment Gem.GString Model.Manip Model.Table Proofs.SeamP Proofs.C12P Proofs.C12Q Proofs.C12R Base.Utf8 Model.Options Model.Editor Model.Ops Proofs.OpsMapP Proofs.C12S.
 Open Scope Z_scope.
 
 (* fullList[spaceWordIdx] is always in range; every iteration appends one U+0020 to one entry *)
@@ -70,3 +70,18 @@ Theorem C12_justify_line_explicit : forall (C : Classifier) (U : Upper) text w c
         else concat (interleave words (gaps_after (Z.to_nat (w - glen c)) g (repeat 1%nat (length words - 1)) 0 false))).
 Proof. intros C U. exact justify_line_explicit. Qed.
 Print Assumptions C12_justify_line_explicit.
+
+(* Justify without JustifyLastLine, outside paragraph mode (LinesTo(-1), per-line JustifyLine,
+   Commit): with P the pieces strings.Split gives and k = LineCount - 1, each of the first k
+   lines is replaced by its JustifyLine and keeps its terminator, and everything from the last
+   line on - the last line and the empty piece after a final terminator - is returned untouched *)
+Theorem C12_justify_keeps_last_line : forall (C : Classifier) (U : Upper) w opts e,
+  let o := with_defaults opts in
+  let sep := o_linesep o in
+  let P := split (e_text e) sep in
+  let k := Z.to_nat (line_count (with_options e o) - 1) in
+  o_preserve o = false -> o_justlast o = false -> e_text e <> [] ->
+  justify_opts w opts e =
+    Ok (with_text e (concat (map (fun p => just_line w p ++ sep) (firstn k P)) ++ join sep (skipn k P))).
+Proof. intros C U. exact justify_opts_keep_last. Qed.
+Print Assumptions C12_justify_keeps_last_line.
